@@ -116,6 +116,9 @@ class Worker:
             rc = self.proc.wait()
             self.restart()
             raise WorkerDied(self.interp, rc, req, "")
+        if "corrupted" in resp:
+            self.restart()
+            raise WorkerDied(self.interp, "interpreter-internal error " + resp["corrupted"], req, resp.get("traceback", ""))
         if "harness_error" in resp:
             raise HarnessError("worker %s: %s" % (self.interp, resp["harness_error"]))
         return resp
